@@ -21,6 +21,7 @@ EXPLANATION = (
     "answers a colliding request on both roles. Decides this for every arrival point because "
     "the indication can only leave the queue through the enumerated sites."
     ' Second session: borrowed rules - ready-probe (C03: the release request sitting in a TLS buffer is seen on every SSLSocket) and provider-survives (C05 artim restricted to the release states Sta7-Sta12).'
+    " Fourth session: (provider-survives) also C04's Timer run-state rule; (request-reaches-action) C03's pairing of a queued PDU with its event."
 )
 
 # (module, qualified function) -> why it may dequeue from to_user_queue
